@@ -680,6 +680,39 @@ pub fn do_op<K: KeyT, V: ValT>(m: &mut Map<K, V>, w: &[&str], chk: &mut Vec<Stri
             pool.install(|| m.par_extend(items));
             Out::Unit
         }
+        "from_par_iter" => {
+            // FromParallelIterator exists for the Global allocator only: a separate map, compared
+            // with the sequential from_iter / extend of the same items (the map `m` is untouched)
+            let pool = rayon::ThreadPoolBuilder::new().num_threads(n(1) as usize).build().unwrap();
+            let mk = || -> Vec<(K, V)> {
+                w[2..]
+                    .iter()
+                    .map(|t| {
+                        let p: Vec<&str> = t.split(':').collect();
+                        (K::mk(parse_u64(p[0]), parse_u64(p[1])), V::mk(parse_u64(p[2])))
+                    })
+                    .collect()
+            };
+            let sorted = |x: &HashMap<K, V, PlanBuild>| -> Vec<(u64, u64, u64)> {
+                let mut l: Vec<(u64, u64, u64)> = x.iter().map(|(k, v)| kvt(k, v)).collect();
+                l.sort();
+                l
+            };
+            let items = mk();
+            let par: HashMap<K, V, PlanBuild> = pool.install(|| HashMap::from_par_iter(items));
+            let seq: HashMap<K, V, PlanBuild> = mk().into_iter().collect();
+            let mut ext: HashMap<K, V, PlanBuild> = HashMap::with_hasher(PlanBuild::default());
+            ext.extend(mk());
+            let (lp, ls, le) = (sorted(&par), sorted(&seq), sorted(&ext));
+            if lp != ls || lp != le {
+                chk.push(format!("from_par_iter: the parallel result {:?} differs from the sequential from_iter {:?} / extend {:?}", lp, ls, le));
+            }
+            if par.len() != lp.len() {
+                chk.push(format!("from_par_iter: the parallel map reports len()={} but yields {} elements", par.len(), lp.len()));
+            }
+            held.push(Box::new((par, seq, ext)));
+            Out::List(lp)
+        }
         // ---------------- serde (C20) ----------------
         "serde_de" => {
             use serde::Deserialize;
@@ -1070,7 +1103,20 @@ pub fn run_map<K: KeyT, V: ValT>(lines: &[String], out: &mut String) {
         });
         let mut chk: Vec<String> = Vec::new();
         let mut held: Held = Vec::new();
-        let r = catch_unwind(AssertUnwindSafe(|| do_op(&mut m, &w, &mut chk, &mut held)));
+        let r = catch_unwind(AssertUnwindSafe(|| {
+            if w[0] == "par_eq" {
+                // par_eq <threads>: the parallel comparison with the other map must agree with ==
+                let pool = rayon::ThreadPoolBuilder::new().num_threads(parse_u64(w[1]) as usize).build().unwrap();
+                let (p, q) = pool.install(|| (m.par_eq(&other), other.par_eq(&m)));
+                let s = m == other;
+                if p != s || q != s {
+                    chk.push(format!("par_eq: the parallel comparison returned {} (reversed: {}) but == returns {}", p, q, s));
+                }
+                Out::Bool(p)
+            } else {
+                do_op(&mut m, &w, &mut chk, &mut held)
+            }
+        }));
         disarm();
         arms.clear();
         // events inside the op window
